@@ -15,12 +15,32 @@ import (
 	"sync"
 
 	of "github.com/contiv/libOpenflow/openflow13"
+	"github.com/contiv/libOpenflow/util"
 )
 
 func init() { subcommands["conc"] = concCmd }
 
-func observeScenario(sc J) []byte {
+// recvBuf is a receive buffer that is reused for every frame, as the stream's pooled buffers are.
+type recvBuf struct{ b []byte }
+
+func (r *recvBuf) load(src []byte) []byte {
+	if r == nil {
+		return append([]byte(nil), src...)
+	}
+	if cap(r.b) < len(src) {
+		r.b = make([]byte, len(src), 2*len(src)+64)
+	}
+	r.b = r.b[:len(src)]
+	copy(r.b, src)
+	return r.b
+}
+
+// observeScenario builds / parses one scenario.  The frames are parsed out of rb (a fresh slice when rb is nil); the returned
+// function projects what was parsed -- the callers that reuse rb call it only after the next scenario has overwritten rb, so a
+// parsed value that still points into its input shows up as a difference from the sequential reference.
+func observeScenario(sc J, rb *recvBuf) func() []byte {
 	out := J{}
+	var later []func()
 	if _, ok := sc["ops"]; ok {
 		o := runBuild(sc)
 		out["build"] = o
@@ -28,19 +48,24 @@ func observeScenario(sc J) []byte {
 		if rs, ok := o["results"].([]J); ok {
 			for i := len(rs) - 1; i >= 0; i-- {
 				if bl, ok := rs[i]["bytes"].([]int); ok {
-					b := make([]byte, len(bl))
+					src := make([]byte, len(bl))
 					for k, x := range bl {
-						b[k] = byte(x)
+						src[k] = byte(x)
 					}
+					b := rb.load(src)
+					var m util.Message
 					p, _ := guard(func() {
-						m, err := of.Parse(b)
+						var err error
+						m, err = of.Parse(b)
 						out["parsedErr"] = err != nil
-						if m != nil && err == nil {
-							out["parsed"] = projectMsg(m)
+						if err != nil {
+							m = nil
 						}
 					})
 					if p != nil {
 						out["parsePanic"] = p
+					} else if m != nil {
+						later = append(later, func() { out["parsed"] = projectMsg(m) })
 					}
 					break
 				}
@@ -48,22 +73,38 @@ func observeScenario(sc J) []byte {
 		}
 	}
 	if fr, ok := sc["frame"]; ok {
-		b := toBytes(fr)
+		b := rb.load(toBytes(fr))
+		var m util.Message
 		p, _ := guard(func() {
-			m, err := of.Parse(b)
+			var err error
+			m, err = of.Parse(b)
 			out["err"] = err != nil
-			if m != nil && err == nil {
-				out["tree"] = projectMsg(m)
-				rb, _ := m.MarshalBinary()
-				out["reenc"] = byteList(rb)
+			if err != nil {
+				m = nil
 			}
 		})
 		if p != nil {
 			out["panic"] = p
+		} else if m != nil {
+			later = append(later, func() {
+				p, _ := guard(func() {
+					out["tree"] = projectMsg(m)
+					rb, _ := m.MarshalBinary()
+					out["reenc"] = byteList(rb)
+				})
+				if p != nil {
+					out["panic"] = p
+				}
+			})
 		}
 	}
-	js, _ := json.Marshal(out)
-	return js
+	return func() []byte {
+		for _, f := range later {
+			f()
+		}
+		js, _ := json.Marshal(out)
+		return js
+	}
 }
 
 func concCmd(args []string) error {
@@ -113,12 +154,22 @@ func concCmd(args []string) error {
 		// sequential reference, forward; then again in reverse order: independent values do not depend on what was processed before
 		seq := make([][]byte, len(corpus))
 		for i := range corpus {
-			seq[i] = observeScenario(clone(i))
+			seq[i] = observeScenario(clone(i), nil)()
 		}
 		orderMismatches := 0
-		for i := len(corpus) - 1; i >= 0; i-- {
-			if !bytes.Equal(observeScenario(clone(i)), seq[i]) {
-				orderMismatches++
+		{
+			rb := &recvBuf{}
+			var prev func() []byte
+			prevIdx := -1
+			for i := len(corpus) - 1; i >= -1; i-- {
+				var cur func() []byte
+				if i >= 0 {
+					cur = observeScenario(clone(i), rb)
+				}
+				if prev != nil && !bytes.Equal(prev(), seq[prevIdx]) {
+					orderMismatches++
+				}
+				prev, prevIdx = cur, i
 			}
 		}
 		obs["orderMismatches"] = orderMismatches
@@ -134,19 +185,30 @@ func concCmd(args []string) error {
 					defer wg.Done()
 					<-start
 					// every goroutine processes the whole corpus, each starting at its own offset
+					// and parses out of its own reused receive buffer; a value is projected after the next frame has arrived
 					off := (w * len(corpus)) / g
-					for k := 0; k < len(corpus); k++ {
+					rb := &recvBuf{}
+					var prev func() []byte
+					prevIdx := -1
+					for k := 0; k <= len(corpus); k++ {
 						i := (off + k) % len(corpus)
-						got := observeScenario(clone(i))
-						mu.Lock()
-						compared++
-						if !bytes.Equal(got, seq[i]) {
-							mismatches++
-							if first == "" {
-								first, _ = corpus[i]["id"].(string)
-							}
+						var cur func() []byte
+						if k < len(corpus) {
+							cur = observeScenario(clone(i), rb)
 						}
-						mu.Unlock()
+						if prev != nil {
+							got := prev()
+							mu.Lock()
+							compared++
+							if !bytes.Equal(got, seq[prevIdx]) {
+								mismatches++
+								if first == "" {
+									first, _ = corpus[prevIdx]["id"].(string)
+								}
+							}
+							mu.Unlock()
+						}
+						prev, prevIdx = cur, i
 					}
 				}(w)
 			}
